@@ -219,9 +219,10 @@ func (newscat *NewsCategoryListData15) Read(p []byte) (int, error) {
 		return 0, io.EOF // All bytes have been read
 	}
 
-	n := copy(p, out)
+	// Continue from where the previous Read stopped; the buffer may be smaller than the record.
+	n := copy(p, out[newscat.readOffset:])
 
-	newscat.readOffset = n
+	newscat.readOffset += n
 
 	return n, nil
 }
